@@ -11,6 +11,8 @@ import pytz
 import stix2.registry as mappings
 import stix2.version
 
+from .exceptions import ParseError
+
 # Sentinel value for properties that should be set to the current time.
 # We can't use the standard 'default' approach, since if there are multiple
 # timestamps in a single object, the timestamps will vary by a few microseconds.
@@ -329,7 +331,12 @@ def detect_spec_version(stix_dict):
     :return: A STIX version in "X.Y" format
     """
 
-    obj_type = stix_dict["type"]
+    try:
+        obj_type = stix_dict["type"]
+    except KeyError:
+        raise ParseError(
+            "Can't parse object with no 'type' property: %s" % str(stix_dict),
+        )
 
     if 'spec_version' in stix_dict:
         # For STIX 2.0, applies to bundles only.  Presence in a bundle implies
